@@ -157,3 +157,65 @@ func VH_C02_query() {
 		vAssert("C02.query.delete.exactly_matched", (gerr != nil) == matched[i])
 	}
 }
+
+// VH_C02_fork: a Search value is a value: refining it twice gives two
+// independent results.  A base result is built from 1..3 Or steps (so that
+// its slice may have spare capacity), then widened twice with Or and twice
+// narrowed with And on arbitrary probes: each derived search — read only after
+// all of them were built — denotes exactly its own duplicate-free set, and the
+// base is unchanged.
+func VH_C02_fork() {
+	db, _ := vhOpenDB(vhCfgs[0])
+	const n = 5
+	var objs []*vObj
+	for k := 1; k <= n; k++ {
+		o := &vObj{A: int64(k), S: "s", U: uint64(k)}
+		vAssert("C02.fork.insert", db.InsertOrUpdate(o) == nil)
+		objs = append(objs, o)
+	}
+	field := []string{"A", "U"}[vChoice("field", 2)] // indexed / un-indexed
+	val := func(k int64) interface{} {
+		if field == "U" {
+			return uint64(k)
+		}
+		return k
+	}
+	steps := vLen("steps", 1, 3)
+	base := db.Search(&vObj{}, field, "=", val(1))
+	for j := 2; j <= steps; j++ {
+		base = base.Or(field, "=", val(int64(j)))
+	}
+	inBase := func(o *vObj) bool { return o.A <= int64(steps) }
+	p3, p4 := vInt64("p3"), vInt64("p4")
+	vAssume(vAnd(vAnd(p3 >= 0, p3 <= n+1), vAnd(p4 >= 0, p4 <= n+1)))
+	var q3, q4 interface{} = p3, p4
+	if field == "U" {
+		q3, q4 = uint64(p3), uint64(p4)
+	}
+	x := base.Or(field, "=", q3)
+	y := base.Or(field, "=", q4)
+	ax := base.And(field, "!=", q3)
+	ay := base.And(field, "!=", q4)
+	check := func(label string, s *Search, want func(o *vObj) bool) {
+		vAssert(label+".ok", s.Err() == nil)
+		got, err := s.Collect()
+		vAssert(label+".collect", err == nil)
+		cnt := map[string]int{}
+		for _, g := range got {
+			cnt[g.UUID()]++
+		}
+		for _, o := range objs {
+			w := 0
+			if want(o) {
+				w = 1
+			}
+			vAssert(label+".exactly_its_set", cnt[o.UUID()] == w)
+		}
+		vAssert(label+".len", s.Len() == len(got))
+	}
+	check("C02.fork.x", x, func(o *vObj) bool { return vOr(inBase(o), o.A == p3) })
+	check("C02.fork.y", y, func(o *vObj) bool { return vOr(inBase(o), o.A == p4) })
+	check("C02.fork.and_x", ax, func(o *vObj) bool { return vAnd(inBase(o), o.A != p3) })
+	check("C02.fork.and_y", ay, func(o *vObj) bool { return vAnd(inBase(o), o.A != p4) })
+	check("C02.fork.base", base, inBase)
+}
